@@ -1451,6 +1451,15 @@ class Emitter:
             return None  # zero-initialised by default (tentative def above)
         return '%s %s = %s;' % (ct, cn, self.cconst(g['type'], init, static=True))
 
+STR_DISJUNCT = r'''/* std::string::_M_disjunct(s): "s does not point into this string".  The library decides it by ordering two
+   possibly unrelated pointers; symex cannot fold that and would fork every append/assign into its aliasing path.
+   Distinct objects never overlap, so the answer for them is "disjunct"; inside one object the comparison is exact. */
+_Bool vf_str_disjunct(void* self, void* s) {
+  const char* d = *(const char* const*)self; uint64_t n = ((const uint64_t*)self)[1];
+  if (!__CPROVER_same_object(s, d)) return 1;
+  return (const char*)s < d || d + n < (const char*)s;
+}
+'''
 PRELUDE = r'''
 #include <stdint.h>
 #include <stddef.h>
@@ -1486,14 +1495,6 @@ void* vf_memmove(void* d, const void* s, size_t n) {
   T* d_ = (T*)(D); const T* s_ = (const T*)(S); size_t k_ = (size_t)(N) / sizeof(T); \
   if (__CPROVER_POINTER_OBJECT(d_) == __CPROVER_POINTER_OBJECT(s_) && __CPROVER_POINTER_OFFSET(d_) > __CPROVER_POINTER_OFFSET(s_)) { for (size_t i_ = k_; i_ > 0; i_--) d_[i_ - 1] = s_[i_ - 1]; } \
   else { for (size_t i_ = 0; i_ < k_; i_++) d_[i_] = s_[i_]; } } while (0)
-/* std::string::_M_disjunct(s): "s does not point into this string".  The library decides it by ordering two
-   possibly unrelated pointers; symex cannot fold that and would fork every append/assign into its aliasing path.
-   Distinct objects never overlap, so the answer for them is "disjunct"; inside one object the comparison is exact. */
-_Bool vf_str_disjunct(void* self, void* s) {
-  const char* d = *(const char* const*)self; uint64_t n = ((const uint64_t*)self)[1];
-  if (!__CPROVER_same_object(s, d)) return 1;
-  return (const char*)s < d || d + n < (const char*)s;
-}
 void* memchr(const void* s, int c, size_t n) { const unsigned char* p = (const unsigned char*)s; for (size_t i = 0; i < n; i++) if (p[i] == (unsigned char)c) return (void*)(p + i); return 0; }
 #else
 #define vf_nd_u8 nondet_u8
@@ -1688,6 +1689,7 @@ def main():
         fo.write('\n/* functions */\n' + '\n\n'.join(bodies) + '\n')
         for n in m.funcs:
             if n in fseen and n in opts.modelled: fo.write('#define VF_HAVE_%s 1\n' % cid(n))
+        if 'vf_str_disjunct' in fseen: fo.write('#ifdef __CPROVER__\n' + STR_DISJUNCT + '#endif\n')
         for mf in a.models:
             fo.write('\n/* models: %s */\n' % mf + open(mf).read())
     if a.list:
